@@ -75,7 +75,7 @@ func genConnConc(r *Rng, tier string, p *Plan) *Plan {
 	}
 	// one plan in four: every connection moves to the same database that does not exist yet, and writes there
 	fresh := ""
-	if r.Chance(0.25) {
+	if r.Chance(0.3) {
 		fresh = Pick(r, []string{"7", "8", "11"})
 	}
 	for c := 0; c < nclients; c++ {
